@@ -10,7 +10,7 @@ from hypothesis import strategies as st
 from .. import gen
 from ..common import Outcome
 from ..ref_sep import SepOracle, acyclification
-from ..y0util import V, build_graph, graph_key, graph_sample, reinsert
+from ..y0util import V, as_iterable, build_graph, graph_key, graph_sample, reinsert
 
 ID = "C20"
 RULE = (
@@ -44,6 +44,7 @@ def strategy(tier):
         gen.admgs(2, 5).map(lambda g: {"g": g}),
         gen.admgs(3, 5, bi_densities=(3, 5, 7), di_densities=(3, 5, 7)).map(lambda g: {"g": g}),
         gen.embedded_admgs(1).map(lambda g: {"g": g}),
+        gen.embedded_admgs(0, motifs=gen.SEP_MOTIFS).map(lambda g: {"g": g}),
         gen.admgs(2, 5, cyclic=True).map(lambda g: {"g": g}),
         gen.admgs(3, 5, cyclic=True, di_densities=(5, 7, 9)).map(lambda g: {"g": g}),
     )
@@ -99,11 +100,11 @@ def check(case) -> Outcome:
         labels.add("both-edge-pair")
     queries = [tuple(case["query"][:2]) + (tuple(case["query"][2]),)] if case.get("query") else _queries(g["nodes"])
     nt = False
-    for a, b, c in queries:
+    for qn, (a, b, c) in enumerate(queries):
         cv = [V(x) for x in c]
         try:
-            r_ab = are_sigma_separated(graph, V(a), V(b), conditions=cv)
-            r_ba = are_sigma_separated(graph, V(b), V(a), conditions=list(reversed(cv)))
+            r_ab = are_sigma_separated(graph, V(a), V(b), conditions=as_iterable(cv, qn))
+            r_ba = are_sigma_separated(graph, V(b), V(a), conditions=as_iterable(reversed(cv), qn + 3))
             r_re = are_sigma_separated(graph2, V(a), V(b), conditions=cv)
         except Exception as e:
             out.ok = False
